@@ -55,7 +55,7 @@ def theorems_of(props_file):
     return names
 
 
-def build_lean(cfg, log):
+def build_lean(cfg, log, tier="quick"):
     """returns (ok, problems[list of str], obligations[list of theorem names], axioms{name: [..]})"""
     problems = []
     with Lock("lake"):
@@ -88,6 +88,12 @@ def build_lean(cfg, log):
                 f.write("#print axioms %s\n" % n)
         r = sh(["lake", "env", "lean", afile], cwd=LEAN, timeout=1800)
         log.write(r.stdout)
+        # thorough tier: the compiled theorem modules are re-checked by the toolchain's independent checker
+        if tier == "thorough":
+            rc = sh(["lake", "env", "leanchecker"] + list(cfg["modules"]), cwd=LEAN, timeout=3600)
+            log.write("leanchecker rc=%d\n%s" % (rc.returncode, rc.stdout[-2000:]))
+            if rc.returncode != 0:
+                problems.append("leanchecker rejected %s: %s" % (cfg["modules"], rc.stdout[-300:].replace("\n", " | ")))
     axioms = {}
     out = re.sub(r"\s+", " ", r.stdout)
     for n in names:
@@ -179,7 +185,7 @@ def main(argv):
             broken.append({"kind": "translator-broken", "what": "%s: %s" % (tr.__name__, e)})
 
     # 2+3. lean build and audit
-    lean_ok, problems, theorems, axioms = build_lean(cfg, log)
+    lean_ok, problems, theorems, axioms = build_lean(cfg, log, tier)
     for p in problems:
         broken.append({"kind": "proof-broken", "what": p})
 
@@ -197,13 +203,15 @@ def main(argv):
     samples = []
     driver = os.path.join(LEAN, ".lake", "build", "bin", "driver")
     if h_ok and os.path.exists(driver):
-        for gi, gen in enumerate(cfg["harness"]):
+        # thorough tier: the stream is generated three times, from the seed and two derived seeds
+        runs = [(g, sd) for g in cfg["harness"] for sd in ([seed, seed + 1000003, seed + 2000003] if tier == "thorough" else [seed])]
+        for gi, (gen, run_seed) in enumerate(runs):
             ops_path = os.path.join(work, "ops_%d.txt" % gi)
             stats_path = os.path.join(work, "stats_%d.json" % gi)
             model_path = os.path.join(work, "model_%d.txt" % gi)
             with open(ops_path, "w") as f:
                 r = subprocess.run([os.path.join(HARNESS, "target", cfg.get("cargo_profile") or "release", "verif-harness")] + gen +
-                                   ["--tier", tier, "--seed", str(seed), "--stats", stats_path],
+                                   ["--tier", tier, "--seed", str(run_seed), "--stats", stats_path],
                                    stdout=f, stderr=subprocess.PIPE, text=True, env=ENV,
                                    timeout=cfg.get("timeout", 7200))
             if r.returncode != 0:
@@ -303,7 +311,7 @@ def main(argv):
         "coverage": {
             "obligations": len(theorems) + (1 if cfg["harness"] else 0),
             "discharged": (len(theorems) if lean_ok else 0) + (1 if (cfg["harness"] and not disagree and h_ok) else 0),
-            "checker_cmd": "cd /verif/lean && lake build %s && lake env lean ../work/audit/Audit_%s.lean  (kernel check + #print axioms)" % (" ".join(cfg["modules"]), pid),
+            "checker_cmd": "cd /verif/lean && lake build %s && lake env lean ../work/audit/Audit_%s.lean  (kernel check + #print axioms)%s" % (" ".join(cfg["modules"]), pid, ("; lake env leanchecker %s (independent re-check of the compiled modules)" % " ".join(cfg["modules"])) if tier == "thorough" else ""),
             "trusted_base": ["Lean 4.33 kernel", "axioms: " + ", ".join(sorted({a for v in axioms.values() for a in v}) or ["none"])] + cfg.get("trusted", []),
             "theorems": theorems,
             "axioms_per_theorem": axioms,
